@@ -33,10 +33,16 @@ out = ["# Seeded property-breaking changes", "",
        "| seed | change | needs, to manifest | confirmed | first round | now reported as |", "|---|---|---|---|---|---|"]
 for r in rows:
     out.append("| %s | %s | %s | %s | %s | %s |" % r)
-n = len(rows)
-firsts = sum(1 for r in rows if r[4] == "own check")
-other = sum(1 for r in rows if r[4].startswith("only"))
-out += ["", "Summary: %d changes; first round: %d reported by the property's own check, %d only by a neighbouring property's check, %d missed." % (n, firsts, other, n - firsts - other),
-        "After strengthening (DESIGN.md §8): all %d are reported by the check of the property they were written against." % n]
+def rnd(sid):
+    return 2 if "-r2-" in sid else (3 if "-r3-" in sid else 1)
+out += [""]
+for k in (1, 2, 3):
+    rr = [r for r in rows if rnd(r[0]) == k]
+    if not rr:
+        continue
+    firsts = sum(1 for r in rr if r[4] == "own check")
+    other = sum(1 for r in rr if r[4].startswith("only"))
+    now_own = sum(1 for r in rr if not r[5].endswith("(NOT by own check)") and r[5])
+    out.append("Round %d: %d changes; first round: %d reported by the property's own check, %d only by a neighbouring property's check, %d missed; now: %d reported by the property's own check." % (k, len(rr), firsts, other, len(rr) - firsts - other, now_own))
 open(os.path.join(V, "seeded", "README.md"), "w").write("\n".join(out) + "\n")
-print("\n".join(out[-3:]))
+print("\n".join(out[-4:]))
